@@ -103,6 +103,10 @@ def _paths(tree: Any, prefix: Tuple[Any, ...] = ()) -> List[Tuple[Any, ...]]:
 def generate(seed: int, tier: str) -> Dict[str, Any]:
     rng = Rng(seed)
     r = rng.stream("gen")
+    if r.chance(0.02):
+        return {"deep": {"shape": r.choice(["lists", "dicts", "selfref"]), "depth": r.choice([70, 400, 3000, 20000]),
+                         "at": r.choice([["flags"], ["flags", "x"], ["t2", "tiers"], ["t4", "cache", "namespaces"], ["version"], ["nonsense"]])},
+                "base": {}, "mutations": [], "world": {}, "texts": []}
     fams = [f for f in E.KNOBS if r.chance(0.5)]
     base = E.gen_cfg(rng.stream("config"), fams, p=0.5)
     if r.chance(0.3):
@@ -380,6 +384,38 @@ def execute(p: Dict[str, Any]) -> Dict[str, Any]:
         if not any(v["sig"] == sig for v in viol):
             viol.append({"cls": "config", "sig": sig, "detail": detail})
 
+    if p.get("deep"):
+        # a value nested thousands of levels deep (or a mapping that contains itself, as a YAML alias can): only the API
+        # variants are exercised, each on a freshly built input - the harness itself could not copy or print such a value
+        def mk() -> Dict[str, Any]:
+            d = p["deep"]
+            if d["shape"] == "selfref":
+                t: Dict[str, Any] = {}
+                t[d["at"][0]] = t
+                return t
+            leaf: Any = []
+            cur = leaf
+            for _ in range(int(d["depth"])):
+                nxt: Any = {"k": []} if d["shape"] == "dicts" else []
+                if isinstance(cur, list):
+                    cur.append(nxt)
+                    cur = nxt if isinstance(nxt, list) else nxt["k"]
+            t = {}
+            node = t
+            for k in d["at"][:-1]:
+                node = node.setdefault(k, {})
+            node[d["at"][-1]] = leaf
+            return t
+        for name, call in (("validate_config", lambda t: V.validate_config(t)), ("validate_config_api", lambda t: V.validate_config_api(t)),
+                           ("validate_config_verbose", lambda t: V.validate_config_verbose(t)), ("compat-form", lambda t: V.validate_config(t, strict=True))):
+            try:
+                call(mk())
+                stats["deep_accepted"] = stats.get("deep_accepted", 0) + 1
+            except ConfigError:
+                stats["deep_rejected"] = stats.get("deep_rejected", 0) + 1
+            except Exception as e:  # noqa: BLE001
+                bad("total:%s:%s:deep-value" % (name, type(e).__name__), "%s on a value %s at %s" % (type(e).__name__, p["deep"], p["deep"]["at"]))
+        return {"violations": viol, "stats": stats, "faults": {}, "nontrivial": True, "key": E.jdigest(p["deep"]), "sim_s": 0.0, "log": E.jdigest(viol)}
     tree_mem = build(p)
     text: Optional[str]
     try:
